@@ -4,7 +4,7 @@ from .codecprops import *
 
 
 def check(v):
-    run_codec_property(v, "C16", ["ser", "full", "eps:0"], oracle_c16,
+    run_codec_property(v, "C16", ["ser", "full", "eps:0", "sfeed"], oracle_c16,
                        rule_extra="Every case whose type holds &[T] or SerIter (standalone, under type parameters of generated structs/enums, zero-copy and deep elements, honest and lying iterators) has a twin with vectors in their place.")
     c = campaign(v.tier)
     v.coverage["slice_or_iterator_cases"] = sum(1 for x in c.cases if ser_only(x.t))
